@@ -83,19 +83,44 @@ Theorem ex_addvalue_routed :
 Proof. exact ex_addvalue_routed_l. Qed.
 Print Assumptions ex_addvalue_routed.
 
-(* the per-bus worker of the example reads the shared attribute definition, type, unit and enum *)
+(* the per-bus worker of the example reads the shared attribute definition, type, unit and enum,
+   and the signal nested in a multiplexer group *)
 Theorem ex_export : export_bus (run ex_ops) 0 =
-  [[500000; 1; 2; 3; 0]; [0]; [0; 7]; [10; 1; 0]; [0]; [0; 7]; [3; 1; 5; 1; 1; 2; 3]; [0]; [0; 7];
-   [1; 0]; [0]; [0; 7]; [1025]; [0; 0; -1]; [8; 0; 0; 255; 1; 0]; [86];
-   []; [1025]; [-1; -1; 0]; [100]; [11; 2; -1; 0]; []].
+  [[500000; 1; 2; 3; 0]; [0]; [0; 7]; [10; 1; 0]; [0]; [ 0; 7]; [3; 1; 5; 1; 1; 2; 3]; [0]; [
+   0; 7]; [ 1; 0; 3]; [0]; [0; 7]; [1025]; [0; 0; -1]; [ 8; 0; 0; 255; 1; 0]; [86]; []; []; [
+   1025]; [ -1; -1; 0]; [100]; []; []; [1025]; [-1; -1; -1]; [ 2; -1; -1]; []; [1025]; [
+   0; -1; -1]; [8; 0; 0; 255; 1; 0]; []; [11; 2; -1; 0]; []].
 Proof. exact ex_export_l. Qed.
 Print Assumptions ex_export.
 
-(* the model contains the writes: with a hint left set (unreachable) the same operations write *)
-Theorem ro_writes_when_hint_set : exists s q, fst (ro s q) <> s.
+Theorem ex_md : eval (run ex_ops) export_md_prog =
+  [[0]; [500000; 1; 2; 3; 0]; [10; 1; 0]; [3; 1; 5; 1; 1; 2; 3]; [1; 0; 3]; [1025]; [
+   0; 0; -1]; [8; 0; 0; 255; 1; 0]; [86]; []; [1025]; [-1; -1; 0]; [100]; []; [1025]; [
+   -1; -1; -1]; [ 2; -1; -1]; [1025]; [0; -1; -1]; [8; 0; 0; 255; 1; 0]; []; [11; 2; -1; 0]].
+Proof. exact ex_md_l. Qed.
+Print Assumptions ex_md.
+
+Theorem ex_save : eval (run ex_ops) save_prog =
+  [[0]; [500000; 1; 2; 3; 0]; [0]; [0; 7]; [10; 1; 0]; [0]; [ 0; 7]; [5; 1; 8; 100]; [0]; [
+   0; 7]; [1; 0; 3]; [0]; [ 0; 7]; [1025]; [0; 0; -1]; [8; 0; 0; 255; 1; 0]; [86]; []; []; [
+   1025]; [-1; -1; 0]; [100]; []; []; [1025]; [ -1; -1; -1]; [2; -1; -1]; []; [1025]; [
+   0; -1; -1]; [8; 0; 0; 255; 1; 0]; []; [11; 2; -1; 0]; []].
+Proof. exact ex_save_l. Qed.
+Print Assumptions ex_save.
+
+(* Markdown export, save, Network.String and one DBC export per bus running together *)
+Theorem all_exports_sequential : forall s sch, Reach s ->
+  let ps := export_md_prog :: save_prog :: net_string_prog :: map export_bus_prog (net_buses s) in
+  fst (sched_run s ps sch) = s /\
+  (forallb is_done (snd (sched_run s ps sch)) = true ->
+   map result_of (snd (sched_run s ps sch)) =
+   eval s export_md_prog :: eval s save_prog :: eval s net_string_prog :: map (export_bus s) (net_buses s)).
+Proof. exact all_exports_sequential_l. Qed.
+Print Assumptions all_exports_sequential.
+
+(* the model contains the writes: with a hint left set (unreachable) the two lookups write *)
+Theorem ro_writes_when_hint_set :
+  (exists s n a, fst (ro s (RNodeGetAttr n a)) <> s) /\
+  (exists s e v, fst (ro s (REnumGetValue e v)) <> s).
 Proof. exact ro_writes_when_hint_set_l. Qed.
 Print Assumptions ro_writes_when_hint_set.
-
-Theorem ro_writes_when_enum_hint_set : exists s q, fst (ro s q) <> s.
-Proof. exact ro_writes_when_enum_hint_set_l. Qed.
-Print Assumptions ro_writes_when_enum_hint_set.
